@@ -824,6 +824,41 @@ def boundary_s_cases(rng, keys):
                             yield spend(tx, b"\x00\x20" + sha256(script), 1000, fix_flags(flags | RS.WITNESS), "sig.boundary_s.p2wsh")
 
 
+def nullfail_matrix(rng, keys):
+    """m-of-n CHECKMULTISIG with every pattern of valid / empty / wrong signatures, with and without a trailing NOT,
+    under NULLFAIL and without it: a failed operation requires ALL signatures to be empty, matched ones included"""
+    import itertools
+    for nkeys, m in ((2, 2), (3, 2), (3, 3), (2, 1), (4, 3)):
+        kidx = list(range(nkeys))
+        pubs = [keys.sec(k, True) for k in kidx]
+        for tail in (b"\xae", b"\xae\x91", b"\xaf\x51"):
+            script = num(m) + b"".join(push(p) for p in pubs) + num(nkeys) + tail
+            for wrapper in ("bare", "p2wsh"):
+                for pattern in itertools.product("VEW", repeat=m):
+                    for flags in (RS.NULLFAIL, RS.NULLFAIL | RS.P2SH | RS.WITNESS | RS.NULLDUMMY, 0, ALL_FLAGS & ~RS.CLEANSTACK):
+                        if wrapper == "p2wsh":
+                            flags = fix_flags(flags | RS.WITNESS)
+                        tx = mk_tx(rng, b"", [], 7000, 1, 0, 0xffffffff, 0, 1, 0)
+                        digest = SH.bip143(tx, 0, script, 7000, 1) if wrapper == "p2wsh" else SH.legacy(tx, 0, script, 1)
+                        # signature j is meant for the j-th of the LAST m keys (so that valid ones are in matching order)
+                        signers = kidx[nkeys - m:]
+                        sigs = []
+                        for j, c in enumerate(pattern):
+                            if c == "V":
+                                sigs.append(sig_blob(keys, signers[j], digest, 1))
+                            elif c == "E":
+                                sigs.append(b"")
+                            else:
+                                sigs.append(sig_blob(keys, signers[j], sha256(digest), 1))
+                        unlock = [b""] + sigs
+                        if wrapper == "bare":
+                            tx["ins"][0]["script"] = b"".join(push(u) for u in unlock)
+                            yield spend(tx, script, 7000, flags, "sig.nullfail.bare")
+                        else:
+                            tx["ins"][0]["witness"] = unlock + [script]
+                            yield spend(tx, b"\x00\x20" + sha256(script), 7000, flags, "sig.nullfail.p2wsh")
+
+
 def locktime_cases(rng, n):
     """CLTV / CSV: operand x tx lock_time / sequence / version on both sides of every comparison"""
     T = 500000000
